@@ -26,18 +26,51 @@ function object) and `defaultLookup` (`_DefaultContext.get_name` with `globals=`
 every environment and every name: the visitor's scope walk, `get_name_from_globals` and
 `_DefaultContext.get_name` give the same answer — the module's binding when there is one, else the
 builtin, else undefined. -/
-theorem names_resolve_alike (env : NameEnv) (n : Nat) :
+theorem names_resolve_alike (env : NameEnv) (n : Nat) (hn : n < attrBase) :
     visLookup env n = globalsLookup env n ∧ defaultLookup env n = globalsLookup env n ∧
     (env.late.has n = true → globalsLookup env n = env.late.get n) ∧
     (env.late.has n = false → globalsLookup env n = env.builtins.get n) := by
-  refine ⟨congrFun (lookups_eq env).1 n, rfl, fun h => by simp [globalsLookup, h], fun h => ?_⟩
+  refine ⟨congrFun (lookups_eq env).1 n, rfl, fun h => by simp [globalsLookup, withAttrs, hn, h], fun h => ?_⟩
   by_cases hb : env.builtins.has n = true
-  · simp [globalsLookup, h, hb]
+  · simp [globalsLookup, withAttrs, hn, h, hb]
   · have : env.builtins.get n = none := by
       simp only [Bindings.has, List.any_eq_true, not_exists, not_and, Bool.not_eq_true] at hb
       simp only [Bindings.get, Option.map_eq_none_iff, List.find?_eq_none]
       intro x hx; simpa using hb x hx
-    simp [globalsLookup, h, hb, this]
+    simp [globalsLookup, withAttrs, hn, h, hb, this]
+
+/-- **Every route resolves every attribute of a dotted name identically (full).** For every
+environment, container object `k` and attribute `a`: the visitor-backed context, the context of a
+function object's string annotations, `type_from_ast` with `globals=` and CPython evaluating the
+expression all answer `getattr(k, a)` — the environment's one attribute table, whatever mechanism
+provides the attribute (a `__dict__` entry, a submodule, a module-level `__getattr__`, a metaclass
+`__getattr__`, a property, the MRO, an instance attribute). Trivial in the model, which is the point:
+the streams tie `Context.get_attribute`, the visitor's attribute machinery and CPython to it. -/
+theorem attr_routes_agree (env : NameEnv) (k a : Nat) :
+    visLookup env (attrKey k a) = env.attrs.get (attrKey k a) ∧
+    globalsLookup env (attrKey k a) = env.attrs.get (attrKey k a) ∧
+    defaultLookup env (attrKey k a) = env.attrs.get (attrKey k a) ∧
+    pyLookup env (attrKey k a) = env.attrs.get (attrKey k a) := by
+  have h : ¬ attrKey k a < attrBase := by have := attrKey_ge k a; omega
+  simp [visLookup, globalsLookup, defaultLookup, pyLookup, withAttrs, h]
+
+/-- **The attribute primitives the model relies on (regenerated obligation).** -/
+theorem annotation_attr_primitives_registered : attrPrimitives = registeredAttrPrimitives := by decide
+
+/-- Consequently a dotted name `N.a₁.….aₖ` resolves alike in every route once its root does. -/
+theorem dotted_routes_agree (env : NameEnv) (n : Nat) (p : List Nat)
+    (hroot : pyLookup env n = visLookup env n) :
+    resolveDotted (pyLookup env) n p = resolveDotted (visLookup env) n p ∧
+    resolveDotted (globalsLookup env) n p = resolveDotted (visLookup env) n p ∧
+    resolveDotted (defaultLookup env) n p = resolveDotted (visLookup env) n p := by
+  have hg := (lookups_eq env).1
+  have hd := (lookups_eq env).2
+  refine ⟨?_, by rw [hg], by rw [hd, hg]⟩
+  simp only [resolveDotted, hroot]
+  cases visLookup env n with
+  | none => rfl
+  | some t =>
+    exact chain_congr _ _ (fun m hm => by unfold pyLookup visLookup; exact withAttrs_attr env.attrs _ _ m hm) p t
 
 /-- **A string annotation means the same wherever its names are looked up (full).** For every
 expression (names shadowing builtins, builtin-only, module-only, undefined, defined after the def):
@@ -63,7 +96,8 @@ builtins) and evaluating it in the visitor (final module scope, then builtins) g
 object. -/
 theorem def_time_names_partial (env : NameEnv) (e : AnnExpr) (h : stableNames env e = true) :
     DefTimeNamesAgree env e := by
-  apply resolveV_congr
+  apply resolveV_congr (pyLookup env) (visLookup env)
+    (fun n hn => by unfold pyLookup visLookup; exact withAttrs_attr env.attrs _ _ n hn)
   intro n hn
   simp only [stableNames, List.all_eq_true, decide_eq_true_eq] at h
   exact h n hn
@@ -72,9 +106,12 @@ theorem def_time_names_partial (env : NameEnv) (e : AnnExpr) (h : stableNames en
 name 1 = `int`, builtin only; name 2 = `MyInt`, module only; name 3 undefined; name 4 = `Later`, bound
 by the module after the def; name 5 bound to `A` before the def and rebound to `B` after it -/
 def exEnv : NameEnv :=
-  { early := [(0, .cls 24), (2, .cls C.int), (5, .cls 23)],
-    late := [(0, .cls 24), (2, .cls C.int), (4, .cls 26), (5, .cls 24)],
-    builtins := [(0, .cls C.complex), (1, .cls C.int)] }
+  { early := [(0, .cls 24), (2, .cls C.int), (5, .cls 23), (6, .objv 0)],
+    late := [(0, .cls 24), (2, .cls C.int), (4, .cls 26), (5, .cls 24), (6, .objv 0)],
+    builtins := [(0, .cls C.complex), (1, .cls C.int)],
+    -- name 6 = `L`, a library module (object 0); `L.Static` (attribute 0) = `A`, `L.sub` (1) = its submodule (object 1),
+    -- `L.Lazy` (2) = `B` through the module's `__getattr__`, `L.sub.Inner` (0) = `Cc`; `L.Missing` (9) does not exist
+    attrs := [(attrKey 0 0, .cls 23), (attrKey 0 1, .objv 1), (attrKey 0 2, .cls 24), (attrKey 1 0, .cls 25)] }
 
 /-- what the property excludes: builtins consulted before the module globals -/
 def builtinsFirstLookup (env : NameEnv) : Lookup := fun n =>
@@ -86,6 +123,13 @@ example : (List.range 5).map (visLookup exEnv) =
     [some (.cls 24), some (.cls C.int), some (.cls C.int), none, some (.cls 26)] ∧
     (List.range 5).map (globalsLookup exEnv) = (List.range 5).map (visLookup exEnv) ∧
     builtinsFirstLookup exEnv 0 = some (.cls C.complex) := by decide
+
+/-- non-vacuity for dotted names in `exEnv`: `"L.Static"`, `"L.Lazy"` (module `__getattr__`), `"L.sub.Inner"`
+resolve to their classes by the string route of a function object; `"L.Missing"` is `Any` with one error -/
+example :
+    [[0], [2], [1, 0], [9]].map (fun p => (astEval (globalsLookup exEnv) false (.dotted 6 p)).map fun r =>
+      (match r.ty with | .typed c => c | _ => 0, r.errs)) =
+    [some (23, 0), some (24, 0), some (25, 0), some (0, 1)] := by decide
 
 /-- **Witness (`stableNames` is needed).** `K = A; def f(x: K): ...; K = B`: the function object
 carries `A`, the visitor evaluates the annotation to `B`. -/
@@ -179,7 +223,7 @@ def wFinal : AnnExpr := .final (.cls C.int)
 /-- no names bound -/
 def look0 : Lookup := fun _ => none
 /-- no names bound -/
-def env0 : NameEnv := ⟨[], [], []⟩
+def env0 : NameEnv := ⟨[], [], [], []⟩
 /-- `Union[List[int | str], List[Union[str, int]]]` -/
 def wDedup : AnnExpr :=
   .union [.gen true C.list [.bor (.cls C.int) (.cls C.str)], .gen true C.list [.union [.cls C.str, .cls C.int]]]
@@ -372,8 +416,8 @@ def hdr0 : DefArgs :=
 /-- non-vacuity: two modules binding name 0 to different classes, the same header `def f(x: "N0")`,
 asked in both orders and twice: every answer is the module's own class -/
 example :
-    let envA : NameEnv := ⟨[(0, .cls 23)], [(0, .cls 23)], []⟩
-    let envB : NameEnv := ⟨[(0, .cls 24)], [(0, .cls 24)], []⟩
+    let envA : NameEnv := ⟨[(0, .cls 23)], [(0, .cls 23)], [], []⟩
+    let envB : NameEnv := ⟨[(0, .cls 24)], [(0, .cls 24)], [], []⟩
     let d : DefArgs := { hdr0 with args := [⟨"x", some (.str (.name 0))⟩] }
     (runSt ⟨[]⟩ [((0, 0), envA, d), ((1, 0), envB, d), ((0, 0), envA, d)]).map
       (fun r => r.map fun s => s.params.map fun p => match p.ann with | .typed c => c | _ => 0) =
